@@ -154,6 +154,12 @@ func (g *serverGroup) validate() (err error) {
 func (srvGrps serverGroups) collectSessTicketPaths() (paths []string) {
 	set := container.NewSortedSliceSet[string]()
 	for _, g := range srvGrps {
+		if g.TLS == nil {
+			// No TLS settings, which is normal for a group with only plain DNS
+			// and DNSCrypt servers.
+			continue
+		}
+
 		for _, k := range g.TLS.SessionKeys {
 			set.Add(k)
 		}
